@@ -133,6 +133,34 @@ def _job(version):
             if d != ref:
                 diff = [t for t in d if d[t] != ref.get(t)]
                 problems.append(f'{version} route {r}: database differs from the plain-xml route in tables {diff}')
+        # a collection of two mutually independent packages (directory and tar.gz): the same content as adding the two
+        # files one after the other (in one of the two orders - the order of the packages is the file system's)
+        cases += 1
+        xa, xb = os.path.join(work, 'a.xml'), os.path.join(work, 'b.xml')
+        lmf.dump({'lmf_version': version, 'lexicons': [base]}, xa)
+        lmf.dump({'lmf_version': version, 'lexicons': [lmfgen.minimal_lexicon('m2')]}, xb)
+        coll2 = os.path.join(work, 'coll2')
+        for name, x in (('pa', xa), ('pb', xb)):
+            os.makedirs(os.path.join(coll2, name))
+            shutil.copy(x, os.path.join(coll2, name, 'lex.xml'))
+            open(os.path.join(coll2, name, 'README.md'), 'w').write('package ' + name + '\n')
+        tar2 = os.path.join(work, 'coll2.tar.gz')
+        with tarfile.open(tar2, 'w:gz') as tf:
+            tf.add(coll2, arcname='coll2')
+        refs = []
+        for order in ((xa, xb), (xb, xa)):
+            db = _fresh(wn, work, f'{version}_two_{len(refs)}')
+            for x in order:
+                wn.add(x, progress_handler=None)
+            refs.append(logical_dump(db))
+        for label, src_ in (('collection of two packages', coll2), ('tar.gz of a collection of two packages', tar2)):
+            db = _fresh(wn, work, f'{version}_{"dir" if src_ == coll2 else "tar"}2')
+            try:
+                wn.add(src_, progress_handler=None)
+                if logical_dump(db) not in refs:
+                    problems.append(f'{version} {label}: database differs from adding the two files one by one')
+            except Exception as exc:   # noqa: BLE001
+                problems.append(f'{version} {label}: {type(exc).__name__}: {exc}')
         # an extension whose base is not installed is skipped as a whole; a partially installed file adds the rest
         if version != '1.0':
             cases += 1
